@@ -4,6 +4,7 @@ import (
 	"fmt"
 	"sort"
 	"strings"
+	"time"
 
 	"github.com/oneconcern/datamon/pkg/core"
 
@@ -79,7 +80,43 @@ func runC10(rc *RunCtx, crashSquash bool) *simkit.Violation {
 		nb = t.Pick(20, 40)
 	}
 	nLeft := 0
+	// a long-lived writer: its bundle descriptor (and the time stamp in it) is built early, other bundles are committed in
+	// the meantime, its own upload - where the bundle id is drawn - runs later: newest by id, not by descriptor time
+	type pendingUpload struct {
+		b    *core.Bundle
+		fn   func() (interface{}, error)
+		tree Tree
+	}
+	var pending *pendingUpload
+	commitPending := func() *simkit.Violation {
+		time.Sleep(1500 * time.Millisecond)
+		tk, v := doOp(prop, w, setup, "upload of a long-lived writer", pending.fn)
+		if v != nil {
+			return v
+		}
+		if tk.Err != nil {
+			return Viol(prop, "harness", "Upload", "r1", "%v", tk.Err)
+		}
+		r.Bundles = append(r.Bundles, &mBundle{ID: pending.b.BundleID, Tree: pending.tree, Leaf: leaf})
+		pending = nil
+		w.Probe("bundle-committed-after-younger-descriptors")
+		return nil
+	}
 	for i := 0; i < nb; i++ {
+		switch {
+		case pending == nil && t.Bool(1, 5):
+			tree := Tree{fmt.Sprintf("slow%d", i): t.Bytes(t.Range(0, 100)), "same": []byte("shared content")}
+			src := memDisk()
+			_ = src.MkdirAll(".", 0o755)
+			_ = writeTree(src, tree)
+			b, fn := d.upload(setup, d.Stores(setup), "r1", src, uploadOpts{leaf: leaf, concUp: 2, message: "long-lived writer"})
+			pending = &pendingUpload{b: b, fn: fn, tree: tree}
+			time.Sleep(1500 * time.Millisecond)
+		case pending != nil && t.Bool(1, 2):
+			if v := commitPending(); v != nil {
+				return v
+			}
+		}
 		if t.Bool(1, 5) {
 			if v := leftover(prop, d, t, "r1", leaf, nLeft); v != nil {
 				return v
@@ -88,6 +125,11 @@ func runC10(rc *RunCtx, crashSquash bool) *simkit.Violation {
 		}
 		tree := Tree{fmt.Sprintf("f%d", i): t.Bytes(t.Range(0, 100)), "same": []byte("shared content")}
 		if _, v := addBundle(prop, d, setup, r, tree, leaf, 2); v != nil {
+			return v
+		}
+	}
+	if pending != nil {
+		if v := commitPending(); v != nil {
 			return v
 		}
 	}
